@@ -391,7 +391,7 @@ func init() {
 		ID:    "C07",
 		Level: "model_checking",
 		Rule: "full matrix: every pool value (all variant types with boundaries) x all 11 target types x both managers against a reference conversion table (result type, payload where the table defines it, result XOR error, operand unchanged, type-safe whitelist, managers agree); " +
-			"plus every two-step chain src->dst->src of the lossless table for every pool value inside the exact range; non-trivial = conversions to a different type / applicable chains",
+			"plus the same matrix on a long-lived manager with a source object that was converted once and then changed in place (must equal a fresh object); plus every two-step chain src->dst->src of the lossless table for every pool value inside the exact range; non-trivial = conversions to a different type / applicable chains",
 		Assume: []string{"string->number/date parsing and any->string formatting are done by the external commons converters (trusted base); their payloads are not predicted except Integer/Long/Boolean->String", "conversions the statement does not list may succeed or fail in the type-unsafe manager"},
 		Spaces: func(tier string) []fw.Space {
 			pool := valuePool("thorough")
@@ -400,6 +400,10 @@ func init() {
 				{Name: "matrix", N: int64(len(pool) * len(allTypes) * 2), Run: func(c *fw.Ctx, i int64) { c07Matrix(c, pool, i) },
 					Repr: func(i int64) string {
 						return fmt.Sprintf("%s Convert(%s, %s)", map[bool]string{false: "type-unsafe", true: "type-safe"}[i%2 == 1], pool[int(i/2)/len(allTypes)].label, tn(allTypes[int(i/2)%len(allTypes)]))
+					}},
+				{Name: "reused-source", N: int64(len(pool) * len(allTypes) * 2), Run: func(c *fw.Ctx, i int64) { c07Reuse(c, pool, i) },
+					Repr: func(i int64) string {
+						return fmt.Sprintf("%s Convert to %s on a reused manager, source object first holding %s then changed in place", mgrName(i%2 == 1), tn(allTypes[int(i/2)%len(allTypes)]), pool[int(i/2)/len(allTypes)].label)
 					}},
 				{Name: "chains", N: int64(len(pool) * len(chains)), Run: func(c *fw.Ctx, i int64) { c07ChainRun(c, pool, chains, i) },
 					Repr: func(i int64) string {
@@ -410,4 +414,32 @@ func init() {
 		},
 		Bounds: func(tier string) string { return "whole pool (both tiers): pool x 11 targets x 2 managers; pool x 22 round-trip chains" },
 	})
+}
+
+// c07Reuse: Convert on a long-lived manager with a source object that is converted, changed in place
+// to another value of its type, and converted again; must equal converting a fresh object.
+func c07Reuse(c *fw.Ctx, pool []poolVal, i int64) {
+	safe := i%2 == 1
+	i /= 2
+	to := allTypes[int(i)%len(allTypes)]
+	is := int(i) / len(allTypes)
+	p2, ok := nextOfType(pool, is)
+	if !ok {
+		c.Outcome("no-second-value-of-that-type")
+		return
+	}
+	m := sharedManager(safe)
+	v := pool[is].mk()
+	fw.Try(func() { m.Convert(v, to) })
+	v.Assign(p2.mk())
+	var r, fr *variants.Variant
+	var err, ferr error
+	pv := fw.Try(func() { r, err = m.Convert(v, to) })
+	fpv := fw.Try(func() { fr, ferr = opsManager(safe).Convert(p2.mk(), to) })
+	c.Eval(2)
+	c.Nontrivial()
+	got, want := outcomeStr(r, err, pv), outcomeStr(fr, ferr, fpv)
+	if got != want {
+		c.Violation("stale-conversion-with-reused-source:"+tn(to), "%s Convert(%s, %s) on a reused manager after the same object held %s: %s; a fresh object gives %s", mgrName(safe), p2.label, tn(to), pool[is].label, got, want)
+	}
 }
